@@ -144,6 +144,10 @@ Fixpoint spec_step (p : spec) (o : op) (restore_ok : bool) : spec :=
       let x := mkS (filter (fun kv => in_scope sc' (fst kv)) m) [id] sc' restore_ok dir [] (map (hk id) dirs) in
       let gone := if same then map fst (filter (fun h => (snd h =? dir) && negb (fst h =? id)) (p_done p)) else [] in
       mkSpec (p_dbs p ++ [x]) (p_snaps p) (p_tasks p) (p_done p) (p_dropped p ++ gone) (p_wals p) (p_d11 p) (if same then p_nextdir p else p_nextdir p + 1)
+  | ORestoreF _ same =>
+      (* a restore that a storage read fault made fail: a dead object, nothing else *)
+      mkSpec (p_dbs p ++ [mkS [] [] [] false 0 [] []]) (p_snaps p) (p_tasks p) (p_done p) (p_dropped p) (p_wals p) (p_d11 p)
+             (if same then p_nextdir p else p_nextdir p + 1)
   | OOpen _ =>
       mkSpec (p_dbs p ++ [mkS [] [] [] true (p_nextdir p) [] []]) (p_snaps p) (p_tasks p) (p_done p) (p_dropped p) (p_wals p) (p_d11 p) (p_nextdir p + 1)
   | OSeq a b => spec_step (spec_step p a restore_ok) b restore_ok
@@ -265,6 +269,7 @@ Definition check_step1 (st : world * spec) (so : op * obs) : (world * spec) * li
                     | RFail c => flag (r_outcome r =? c) 1
                     | ROpen x => flag (robs_eqb r (model_read w' x keys)) 1
                     end
+                | ORestoreF _ _, Some r => flag (r_outcome r =? 1) 1
                 | ORead d, Some r => match get_db w' d with Some x => flag (robs_eqb r (model_read w' x keys)) 1 | None => [1] end
                 | ORetain d ids, Some r => flag ((r_outcome r =? 3) && retain_empty w d ids) 1
                 | ORetain d ids, None => flag (negb (retain_empty w d ids)) 1
